@@ -70,6 +70,22 @@ def node_failures(sp, dt):
         err = np.linalg.norm(N - M.conj().T)
         if not err <= tol(dt) * scale:
             out.append("adjoint")
+    # real-dtype x and y ("for all real or complex x and y"): the matrices seen through real-dtype probes must be the
+    # same maps, i.e. <A x, y> = <x, A^H y> also for real x with complex y and vice versa. Compared at single
+    # precision (fft documents that real input is computed in complex64); an operator that rejects real input is skipped.
+    if "adjoint" not in out and N.shape == M.T.shape:
+        try:
+            with warnings.catch_warnings():
+                warnings.simplefilter("ignore")
+                Mr = LO.mat_real(op, op.ishape, dt)
+                Nr = LO.mat_real(H, H.ishape, dt)
+            rs = max(scale, LO.tree_opscale(sp, dt)) if (Mr is not None or Nr is not None) else scale
+            if Mr is not None and (Mr.shape != M.shape or not np.linalg.norm(N - Mr.conj().T) <= 2e-4 * rs):
+                out.append("adjoint:real-x")
+            if Nr is not None and (Nr.shape != N.shape or not np.linalg.norm(Nr - M.conj().T) <= 2e-4 * rs):
+                out.append("adjoint:real-y")
+        except Exception as e:
+            out.append("raises:real-probe:%s" % type(e.__cause__ or e).__name__)
     try:
         HH = op.H.H
         M2 = safe_mat(HH, HH.ishape, dt)
@@ -205,7 +221,18 @@ def check_big(case):
     return r
 
 
+@st.composite
+def st_rooted(draw):
+    """programs whose root is a combinator (stacks, sums, Conj, .H ...): first leaf class NOT forced"""
+    for _ in range(6):
+        c = draw(LO.st_tree(max_depth=2, first_round_robin=False))
+        if c["tree"]["op"] in LO.COMBINATORS:
+            return c
+    return c
+
+
 PARTS = [
+    Part("rooted", check_tree, {"quick": 1500, "thorough": 40000}, strategy=st_rooted),
     Part("tree", check_tree, {"quick": 2600, "thorough": 60000}, strategy=lambda: LO.st_tree(max_depth=2)),
     Part("leaf", check_tree, {"quick": 1600, "thorough": 40000}, strategy=lambda: LO.st_tree(max_depth=0)),
     Part("mri", check_tree, {"quick": 500, "thorough": 10000}, strategy=st_mri),
